@@ -118,4 +118,21 @@ theorem c29_emitted_sorted (s : NSt) :
     Sorted (fun (p : (Nat × Nat) × String) => p.1.1) (emittedLnames s) ∧ Sorted (fun (p : Nat × String) => p.1) (emittedGnames s) :=
   ⟨sorted_sortByKey _ _, sorted_sortByKey _ _⟩
 
+/-- **a function built to replace an import is named after the import's field**: after `replace_import_in_module(ImportsID p)` on a live
+    function import, the new local function `uid` carries the field name, every other function keeps its name, the import names and
+    the local / global name maps are untouched, and the index spaces are M2's `replaceImport` (C10) -/
+theorem c29_replacement_named_after_import (s : NSt) (impId uid : Nat) (field : String) (e : ImpEntry) (fid : Nat)
+    (he : s.e.imports[impId]? = some e) (hk : e.sp = some Sp.F)
+    (hfind : s.e.f.items.findIdx? (fun (it : Item) => !it.del && it.imp && it.impId == impId) = some fid) :
+    let r := replaceImportNamed s impId uid field
+    getName r.1.fname uid = some field
+    ∧ (∀ u, u ≠ uid → getName r.1.fname u = getName s.fname u)
+    ∧ r.1.impName = s.impName ∧ r.1.lnames = s.lnames ∧ r.1.gnames = s.gnames
+    ∧ r.1.e = (replaceImport s.e impId uid []).1 ∧ r.2 = (replaceImport s.e impId uid []).2 := by
+  simp only [replaceImportNamed, he, hk, hfind, beq_self_eq_true, Option.isSome_some, Bool.and_self, if_true]
+  refine ⟨by simp [getName_setName], ?_, by simp⟩
+  intro u hu
+  have : ¬ uid = u := fun h => hu h.symm
+  simp [getName_setName, this]
+
 end Orca.Names
